@@ -91,8 +91,8 @@ const c13Root = `{"$id":"http://h/strict.json","$dynamicAnchor":"node","$ref":"t
 // required lists of 3 and 6 names (JSON-decoded: spare capacity behind them) next to dependentRequired with different lists
 const c13Dep = `{"properties":{"dep":{"required":["r1","r2","r3"],"dependentRequired":{"t1":["p","r1"],"t2":["q"],"t3":["p","q","z"]},
   "properties":{"deep":{"required":["a","b","c","d","e","f"],"dependentRequired":{"x":["y"],"y":["x","w"]}}}}}}`
-const c13Def = `{"type":"object","properties":{
-  "cfg":{"type":"object","default":{"host":"h","tags":["a","b"]},"properties":{"host":{"type":"string"},"port":{"default":80},"tags":{"type":"array"},
+const c13Def = `{"type":"object","required":["n"],"minProperties":1,"maxProperties":20,"properties":{
+  "cfg":{"type":"object","required":["host"],"minProperties":1,"default":{"host":"h","tags":["a","b"]},"properties":{"host":{"type":"string"},"port":{"default":80},"tags":{"type":"array"},
      "tls":{"type":"object","default":{"on":true},"properties":{"on":{"type":"boolean"},"ciphers":{"default":["x",{"y":1}]}}}}},
   "list":{"default":[1,2,{"k":"v"}]},"n":{"default":1},"s":{"default":"str"},"nul":{"default":null},
   "m":{"properties":{"deep":{"properties":{"leaf":{"default":{"a":{"b":[]}}}}}}}}}`
